@@ -168,15 +168,15 @@ def compare(real, pred, pos_tol=1e-9, mod_cell=None, check_pos=True, ordered=Tru
     if ordered:
         if rid != pid:
             bad.append(("atom_order", "atom id sequence differs: real %s ... predicted %s ..." % (_short(rid), _short(pid))))
-            if sorted(rid) != sorted(pid):
-                extra = sorted(set(rid) - set(pid))
-                missing = sorted(set(pid) - set(rid))
+            if sorted(rid, key=repr) != sorted(pid, key=repr):
+                extra = sorted(set(rid) - set(pid), key=repr)
+                missing = sorted(set(pid) - set(rid), key=repr)
                 bad.append(("atom_set", "atoms only in real: %s; only in prediction: %s; counts %d vs %d" % (_short(extra), _short(missing), len(rid), len(pid))))
                 return bad
     else:
-        if sorted(rid) != sorted(pid):
+        if sorted(rid, key=repr) != sorted(pid, key=repr):
             bad.append(("atom_set", "atom id multiset differs (%d real, %d predicted): only real %s only predicted %s" %
-                        (len(rid), len(pid), _short(sorted(set(rid) - set(pid))), _short(sorted(set(pid) - set(rid))))))
+                        (len(rid), len(pid), _short(sorted(set(rid) - set(pid), key=repr)), _short(sorted(set(pid) - set(rid), key=repr)))))
             return bad
     if len(set(rid)) == len(rid):
         pb = {a["id"]: a for a in pred.atoms}
